@@ -11,14 +11,15 @@
 (* every decision breakpoint k*86400 + {-1, 0, 1}.                         *)
 (***************************************************************************)
 EXTENDS Find, TLC, Json
-CONSTANTS StartIds, EndIds, EmitVec, Literal
+CONSTANTS Pairs, EmitVec, Literal       \* Pairs: set of encoded ordered pairs start_id * 2000 + end_id
 VARIABLES vPh, vS, vE
 vars == <<vPh, vS, vE>>
 NdOf(id) == IF id <= 365 THEN <<"J", id>>
             ELSE IF id <= 731 THEN <<"Z", id - 366>>
             ELSE LET i == id - 732 IN <<"M", (i \div 35) + 1, ((i % 35) \div 7) + 1, i % 7>>
-Init == vPh = 0 /\ vS \in StartIds /\ vE = 0
-Next == vPh = 0 /\ vPh' = 1 /\ vS' = vS /\ vE' \in EndIds
+StartsOf == {p \div 2000 : p \in Pairs}
+Init == vPh = 0 /\ vS \in StartsOf /\ vE = 0
+Next == vPh = 0 /\ vPh' = 1 /\ vS' = vS /\ vE' \in {p % 2000 : p \in {q \in Pairs : q \div 2000 = vS}}
 Spec == Init /\ [][Next]_vars
 
 SetMin(S) == CHOOSE x \in S : \A z \in S : x <= z
